@@ -25,3 +25,20 @@ M("c01-grid-offset", "C01", "make_grid_vectors: grid offset by stride//2", "slea
   "xv = torch.arange(0, image_width, step=output_stride, dtype=torch.float32) + (output_stride // 2)")
 M("c01-dp-sigma", "C01", "MultiConfidenceMapGenerator: sigma not multiplied by stride", CM,
   "                self.sigma * self.output_stride,\n            )\n\n            if self.centroids:", "                self.sigma,\n            )\n\n            if self.centroids:")
+
+EM = "sleap_nn/data/edge_maps.py"
+M("c05-src-dst-swap", "C05", "make_pafs: unit vector src-dst swapped", EM,
+  "    unit_vectors = edge_destination - edge_source\n    unit_vectors = unit_vectors / torch.norm", "    unit_vectors = edge_source - edge_destination\n    unit_vectors = unit_vectors / torch.norm")
+M("c05-not-normalised", "C05", "make_pafs: unit vector not normalised", EM,
+  "    unit_vectors = unit_vectors / torch.norm(unit_vectors, dim=-1, keepdim=True)\n", "    unit_vectors = unit_vectors / torch.clamp(torch.norm(unit_vectors, dim=-1, keepdim=True), max=1.0)\n")
+M("c05-nan-zero-removed", "C05", "make_multi_pafs: NaN -> 0 removed", EM, "        paf[torch.isnan(paf)] = 0.0\n", "")
+M("c05-last-wins", "C05", "make_multi_pafs: += -> maximum", EM, "        pafs += paf\n", "        pafs = torch.where(paf.abs() > pafs.abs(), paf, pafs)\n")
+M("c05-flatten-component-major", "C05", "generate_pafs: component-major flatten", EM,
+  "        pafs = pafs.reshape(n_edges * 2, grid_height, grid_width)\n        assert pafs.shape == (n_edges * 2, grid_height, grid_width)\n\n    return pafs",
+  "        pafs = pafs.permute(1, 0, 2, 3).reshape(n_edges * 2, grid_height, grid_width)\n        assert pafs.shape == (n_edges * 2, grid_height, grid_width)\n\n    return pafs")
+M("c05-filter-dropped", "C05", "generate_pafs: in-image filter dropped", EM,
+  "    assert len(in_img.shape) == 1\n    instances = instances[in_img]\n", "    assert len(in_img.shape) == 1\n")
+M("c05-clamp-removed", "C05", "distance_to_edge: projection clamp to segment removed (upper)", EM,
+  "    line_projections = torch.clamp(line_projections, min=0, max=1)", "    line_projections = torch.clamp(line_projections, min=0)")
+M("c05-dp-filter-all", "C05", "PartAffinityFieldsGenerator: any(dim=1) -> all(dim=1)", EM,
+  "            in_img = in_img.all(dim=-1).any(dim=1)", "            in_img = in_img.all(dim=-1).all(dim=1)")
